@@ -132,8 +132,10 @@ func runConn(n int, out, replay string) {
 // ---- req: remote spawn / application start between two real nodes ----------------------------------
 
 type reqCase struct {
-	Kind   string   `json:"kind"`  // spawn | app
-	Flags  flagsJ   `json:"flags"` // the target acceptor's flags
+	Kind   string   `json:"kind"`       // spawn | app
+	Flags  flagsJ   `json:"flags"`      // the target's flags for this connection: its acceptor's (target accepts) or its route's (target dials)
+	NodeFl flagsJ   `json:"node_flags"` // the target's node-level flags (NetworkOptions.Flags): used when the connection has none of its own
+	Dial   bool     `json:"dial"`       // the TARGET opened the connection; the request comes back over it from the accepting side
 	Expose bool     `json:"expose"`
 	Rogue  bool     `json:"rogue"` // the requester ignores what the target advertised (its handshake reports all capabilities on)
 	Ops    []tabOp  `json:"ops"`   // history on the target; peer 1 is the requester
@@ -172,10 +174,13 @@ func (r rogueHS) Version() gen.Version {
 	return v
 }
 
-func startReqPair(fl flagsJ, expose bool, rogue bool) *reqPair {
+func startReqPair(fl flagsJ, nodefl flagsJ, dial bool, expose bool, rogue bool) *reqPair {
 	ob := gen.NodeOptions{}
 	ob.Network.Cookie = "req-cookie"
-	ob.Network.Acceptors = []gen.AcceptorOptions{{Flags: fl.gen()}}
+	ob.Network.Flags = nodefl.gen()
+	if !dial {
+		ob.Network.Acceptors = []gen.AcceptorOptions{{Flags: fl.gen()}}
+	}
 	ob.Security.ExposeEnvInfo = true
 	b := startNode("rb", ob)
 	oa := gen.NodeOptions{Env: map[gen.Env]any{"VERIFMARK": "from-requester"}}
@@ -186,6 +191,25 @@ func startReqPair(fl flagsJ, expose bool, rogue bool) *reqPair {
 		oa.Network.Handshake = rogueHS{handshake.Create(handshake.Options{})}
 	}
 	a := startNode("ra", oa)
+	if dial {
+		// the target dials the requester (flags of the route, else its node-level flags); the requester
+		// then uses the established connection for its request
+		if _, err := b.Network().GetNodeWithRoute(a.Name(), routeTo(a, "", fl.gen())); err != nil {
+			panic(err)
+		}
+		var remote gen.RemoteNode
+		var err error
+		for try := 0; try < 200; try++ {
+			if remote, err = a.Network().Node(b.Name()); err == nil {
+				break
+			}
+			time.Sleep(5 * time.Millisecond)
+		}
+		if err != nil {
+			panic(err)
+		}
+		return &reqPair{a, b, remote}
+	}
 	route := routeTo(b, "", gen.NetworkFlags{})
 	if rogue {
 		route.Route.HandshakeVersion = rogueHS{handshake.Create(handshake.Options{})}.Version()
@@ -290,12 +314,25 @@ func runReq(n int, out, replay string) {
 			{Enable: true, Spawn: false, AppStart: true, PAccept: true, Important: true},
 			{Enable: true, Spawn: true, AppStart: false, PAccept: true, Important: true},
 			{Enable: true},
-			{}, // not customised: the acceptor falls back to the handshake's / node's flags
+			{}, // not customised: the acceptor / route falls back to the node-level flags, those to the defaults
+		}
+		nodeConfigs := []flagsJ{
+			{}, {},
+			{Enable: true, Spawn: false, AppStart: true, PAccept: true, Important: true},
+			{Enable: true, Spawn: true, AppStart: false, PAccept: true, Important: true},
 		}
 		// a rogue requester against every target configuration: the request is enabled for it in the table
 		for _, fl := range configs {
 			for _, k := range []string{"spawn", "app"} {
 				cases = append(cases, reqCase{Kind: k, Flags: fl, Rogue: true, Name: 1, Ops: []tabOp{{true, 1, b2i(k == "spawn"), nil}}})
+			}
+		}
+		// the target dials and has only node-level flags (no route flags): they decide, in both directions of the table
+		for _, nf := range nodeConfigs[2:] {
+			for _, k := range []string{"spawn", "app"} {
+				for _, dial := range []bool{true, false} {
+					cases = append(cases, reqCase{Kind: k, NodeFl: nf, Dial: dial, Name: 1, Ops: []tabOp{{true, 1, b2i(k == "spawn"), nil}}})
+				}
 			}
 		}
 		for len(cases) < n {
@@ -304,6 +341,8 @@ func runReq(n int, out, replay string) {
 					t := genTabCase(r)
 					// make the requester (peer 1) and the requested name matter
 					c := reqCase{Kind: t.Kind, Flags: fl, Expose: ex, Ops: t.Ops, Name: 1 + r.Intn(2)}
+					c.NodeFl = nodeConfigs[r.Intn(len(nodeConfigs))]
+					c.Dial = r.Intn(2) == 0
 					cases = append(cases, c)
 				}
 			}
@@ -319,10 +358,10 @@ func runReq(n int, out, replay string) {
 		}
 	}()
 	for _, c := range cases {
-		key := fmt.Sprintf("%v/%v/%v", c.Flags, c.Expose, c.Rogue)
+		key := fmt.Sprintf("%v/%v/%v/%v/%v", c.Flags, c.NodeFl, c.Dial, c.Expose, c.Rogue)
 		p := pairs[key]
 		if p == nil {
-			p = startReqPair(c.Flags, c.Expose, c.Rogue)
+			p = startReqPair(c.Flags, c.NodeFl, c.Dial, c.Expose, c.Rogue)
 			pairs[key] = p
 		}
 		if timeouts > 25 {
@@ -336,7 +375,16 @@ func runReq(n int, out, replay string) {
 		// the flags the target really uses for this connection
 		eff := c.Flags
 		if !eff.Enable {
+			eff = c.NodeFl
+		}
+		if !eff.Enable {
 			eff = flagsOf(gen.DefaultNetworkFlags)
+		}
+		if c.Dial {
+			o.Stats["target-dials"]++
+		}
+		if c.NodeFl.Enable && !c.Flags.Enable {
+			o.Stats["node-level-flags-decide"]++
 		}
 		kind := "KSpawn"
 		if c.Kind == "app" {
